@@ -98,6 +98,12 @@ CLAIMED["C10"] = dict(
     note="Trusted: as C01. Both spellings are generated only for primitive, enum and struct payloads.",
     ref="DESIGN.md §2 C10")
 
+CLAIMED["C02"] = dict(
+    engine="P", technique="end-to-end differential property testing through the generated C++ class API (g++ -std=c++17 and -std=c++20, ASan+UBSan), with an almost-valid UTF-8 generator for the rejection clause",
+    text="Generated programs and call vectors as in C01, driven through the C++ classes only (optional, string_view, span, struct/enum wrappers, references, unique_ptr, diplomat::result, std::string). Arguments must arrive unchanged, returns must come back with identical contents and arm, under both language standards; ill-formed UTF-8 in a direct &str parameter must yield Utf8Error and no Rust invocation. Exploration.",
+    note="Trusted: g++ 12, the C++ driver generator's model of the class API (a wrong model fails to compile rather than pass). Owned slices, callbacks, operators and lists of strings (known finding) are not driven from C++.",
+    ref="DESIGN.md §2 C02")
+
 TODO_REASON = "check not built yet in this revision of /verif (planned, see DESIGN.md §2); not claimed until it is silent on the unchanged tree and kills its mutants"
 
 ALL = ["C%02d" % i for i in range(1, 18)]
